@@ -35,6 +35,6 @@ Section C09_SpecLU.
                           (c09_lane_mat T zero l A) (c09_lane_vec T zero l b)).
   Definition c09_spec_invert (doPivoting : bool) (n : nat) (A : list (list (list T))) : list (c09_res (list (list T))) :=
     c09_tab W (fun l => c09_s_invert T U sub mul div absr gt nz zero one mone doPivoting n (c09_lane_mat T zero l A)).
-  Definition c09_spec_det (fixed doPivoting : bool) (n : nat) (A : list (list (list T))) : list T :=
-    c09_tab W (fun l => c09_s_det T U sub mul div absr gt nz zero one mone fixed doPivoting n (c09_lane_mat T zero l A)).
+  Definition c09_spec_det (doPivoting : bool) (n : nat) (A : list (list (list T))) : list T :=
+    c09_tab W (fun l => c09_s_det T U sub mul div absr gt nz zero one mone doPivoting n (c09_lane_mat T zero l A)).
 End C09_SpecLU.
